@@ -25,7 +25,8 @@ EXPLANATION = (
     ' Fifth round: every sentence of the batch reaches the token loop.'
     ' Sixth and seventh round: the validation step stores nothing into the arrays; the dictionary keyed by parsed categories relies on equality over all fields and the generated hash (R17.3).'
     ' Eighth round: membership tests on generators, Token.__getattr__ storing on the instance, the feature slots named in the shipped unary tables.'
-    ' Ninth and tenth round: the ids of all listed categories reach the mask -- no filter on them (R17.2).')
+    ' Ninth and tenth round: the ids of all listed categories reach the mask -- no filter on them (R17.2).'
+    ' Eleventh round: nothing leaves the token loop of the filter early (R17.2); a mask builder nested in the filter with the tag count as a closure variable is read like the two-parameter one.')
 TRUSTED = ['CPython ast', 'numpy boolean-mask assignment semantics', 'independent jsonnet-subset and category readers (sa/datafiles.py)']
 
 REL = 'depccg/parsing.py'
